@@ -111,6 +111,11 @@ func Zoo() []ZooEntry {
 	add("map[bool]int", MapNode(MapOf(TBool, TInt), []*Node{Bool(true)}, []*Node{Int(5)}))
 	add("map[float64]int", MapNode(MapOf(TFloat64, TInt), []*Node{Float(1.5), Float(5)}, []*Node{Int(5), Int(7)}))
 	add("map[interface{}]int", MapNode(MapOf(TIface, TInt), []*Node{Iface(Str("abc")), Iface(Int(5)), Iface(StrOf(NamedScalarTypes[9], "x"))}, []*Node{Int(5), Int(7), Int(9)}))
+	add("map[int]string-empty", MapNode(MapOf(TInt, TString), nil, nil))
+	add("map[bool]int-nil", NilOf(MapOf(TBool, TInt)))
+	add("map[interface{}]int-empty", MapNode(MapOf(TIface, TInt), nil, nil))
+	add("[]int-empty", Slice(SliceOf(TInt)))
+	add("[]string-nil", NilOf(SliceOf(TString)))
 	add("map[string][]int", MapNode(MapOf(TString, SliceOf(TInt)), []*Node{Str("abc")}, []*Node{Slice(SliceOf(TInt), Int(5))}))
 	add("map[string]struct", MapNode(MapOf(TString, st), []*Node{Str("abc")}, []*Node{sv}))
 	add("chan", &Node{T: &Type{K: KChan}, I: 1})
